@@ -2441,6 +2441,33 @@ def small_equivalences(prog: Program) -> list[str]:
                             if vals and len(cvs) == 1 and all(isinstance(v, ast.Call) and isinstance(v.func, ast.Attribute) and v.func.attr == "set" for v in vals):
                                 n.func.value = clone(vals[0].func.value)  # type: ignore[union-attr]
                                 count += 1
+            # `for i, r in enumerate(R): ... X[i] ...` with the index used for nothing but `X[i]` (X a plain attribute / name that
+            # the loop does not touch): the pairs of `zip(X, R)` - the same elements whenever the indexed form does not raise
+            for n in list(fi.own_nodes()):
+                if isinstance(n, ast.For) and isinstance(n.iter, ast.Call) and isinstance(n.iter.func, ast.Name) and n.iter.func.id == "enumerate" and len(n.iter.args) == 1 and not n.iter.keywords and isinstance(n.target, ast.Tuple) and len(n.target.elts) == 2 and isinstance(n.target.elts[0], ast.Name):
+                    idx = n.target.elts[0].id
+                    uses_i = [x for st in n.body + n.orelse for x in ast.walk(st) if isinstance(x, ast.Name) and x.id == idx]
+                    subs = [getattr(x, "_parent", None) for x in uses_i]
+                    if uses_i and all(isinstance(sb, ast.Subscript) and sb.slice is x and isinstance(sb.ctx, ast.Load) and _is_simple(sb.value) for x, sb in zip(uses_i, subs)):
+                        bases = {ast.dump(sb.value) for sb in subs}
+                        used_after = any(isinstance(x, ast.Name) and x.id == idx for x in fi.own_nodes() if not any(x is y for st in [n] for y in ast.walk(st)))
+                        base_root = _root_name(subs[0].value)
+                        touched = any(isinstance(x, ast.Name) and x.id == base_root and not isinstance(x.ctx, ast.Load) for st in n.body for x in ast.walk(st))
+                        if len(bases) == 1 and not used_after and not touched:
+                            elem = f"{idx}__item"
+                            for sb in subs:
+                                par = getattr(sb, "_parent", None)
+                                repl = ast.copy_location(ast.Name(id=elem, ctx=ast.Load()), sb)
+                                for f_, v_ in ast.iter_fields(par):
+                                    if v_ is sb:
+                                        setattr(par, f_, repl)
+                                    elif isinstance(v_, list):
+                                        for j, y in enumerate(v_):
+                                            if y is sb:
+                                                v_[j] = repl
+                            n.target.elts[0] = ast.copy_location(ast.Name(id=elem, ctx=ast.Store()), n.target.elts[0])
+                            n.iter = ast.copy_location(ast.Call(func=ast.Name(id="zip", ctx=ast.Load()), args=[clone(subs[0].value), n.iter.args[0]], keywords=[ast.keyword(arg="strict", value=ast.Constant(value=True))]), n.iter)
+                            count += 1
             kwn = fi.node.args.kwarg.arg if fi.node.args.kwarg else None
             if kwn:
                 uses = [x for x in fi.own_nodes() if isinstance(x, ast.Name) and x.id == kwn]
